@@ -310,6 +310,36 @@ func monC12(c *drv.Ctx) {
 				}
 				cs.C.Obs("truncated exception bodies", 1)
 			}
+			// the payload of an EXCEPTION message may be any of the library's exception kinds (they share the
+			// encoding): what comes back carries the payload's type id and text
+			for k := 0; k < 3; k++ {
+				var pl interface {
+					thrift.FastCodec
+					TypeId() int32
+					Error() string
+				}
+				switch k {
+				case 0:
+					pl = thrift.NewTransportException(tid, text)
+				case 1:
+					pl = thrift.NewProtocolException(tid, text)
+				default:
+					pl = thrift.NewProtocolExceptionWithErr(errors.New("cause " + text))
+				}
+				wantID, wantText := pl.TypeId(), pl.Error()
+				bb, err := thrift.MarshalFastMsg(method, mt, seq, pl)
+				if err != nil {
+					cs.Fail("marshal-error", M{"payload": fmt.Sprintf("%T", pl)}, M{"err": errString(err)})
+					break
+				}
+				_, _, err5 := thrift.UnmarshalFastMsg(place(bb, 0), &base.BaseResp{})
+				var ae5 *thrift.ApplicationException
+				if !errors.As(err5, &ae5) || ae5.TypeId() != wantID || ae5.Error() != wantText {
+					cs.Fail("exception-content", M{"payload": []string{"transport", "protocol", "protocol-with-cause"}[k]}, M{"err": errString(err5), "want_type": wantID, "want_text": wantText})
+					break
+				}
+				cs.C.Obs("exception payloads of other kinds", 1)
+			}
 			cs.C.Obs("exception messages", 1)
 			cs.Count(true, "exc", method, seq, tid, text)
 			return
